@@ -420,7 +420,9 @@ fn narrow_check<T: Lane + Elem, U: Lane + Elem, O: NarrowSaturate<T, U>>(rec: &m
                 }
             }
             Err(p) => {
-                let sig = format!("rten-simd {}::narrow_saturate: panics", T::NAME);
+                // i32->i16 and i16->u8 come from one macro in each ISA: one signature
+                let fam = if T::NAME == "f32" { "f32->f16" } else { "integer lanes" };
+                let sig = format!("rten-simd NarrowSaturate ({fam}): panics");
                 let isa = rec.isa.clone();
                 rec.fail(sig, vp_core::json!({"kind": "structural", "op": "narrow_saturate", "type": T::NAME, "isa": isa}),
                     format!("isa {isa}: narrow_saturate<{}->{}> panicked: {p}", T::NAME, U::NAME));
@@ -538,7 +540,10 @@ impl SimdOp for PrimTask {
             Task::Small => small(rec, isa, self.byte_width),
             Task::Bytes => bytes(rec, isa),
             Task::Words { a_lo, a_hi, partners } => words(rec, isa, a_lo, a_hi, partners),
-            Task::F32Unary { start, count, stride } => f32_unary(rec, isa, start, count, stride),
+            Task::F32Unary { start, count, stride } => {
+                rec.skip_open = true;
+                f32_unary(rec, isa, start, count, stride)
+            }
         }
         std::mem::take(rec)
     }
